@@ -275,6 +275,11 @@ class Engine(ExprMixin, CallMixin, SpecMixin, StmtMixin):
             st.alloc = z3.Int("alloc0")
             st.assume(st.alloc >= 0)
             argnames = [a.arg for a in fn.args.posonlyargs + fn.args.args + fn.args.kwonlyargs]
+            if fn.args.vararg is not None:
+                # *name: the tuple of extra positional arguments is modelled as a list parameter (it is only read)
+                argnames.append(fn.args.vararg.arg)
+                if fn.args.vararg.arg in c.params and c.params[fn.args.vararg.arg].kind != "list":
+                    raise StaleContract("%s: *%s must be given a list type" % (c.qualname, fn.args.vararg.arg))
             for n in c.params:
                 if n not in argnames:
                     raise StaleContract("%s: parameter %s is not in the signature" % (c.qualname, n))
@@ -405,7 +410,7 @@ class Engine(ExprMixin, CallMixin, SpecMixin, StmtMixin):
         sv = SV(ty, z3.Const("p_" + n, ty.sort()))
         if ty.is_ref:
             st.assume(z3.And(0 <= sv.t, sv.t < st.alloc))
-            self.reachable_allocated(sv, st, 3)
+            self.reachable_allocated(sv, st, 4)
         return sv
 
     def reachable_allocated(self, sv, st, depth):
@@ -427,6 +432,30 @@ class Engine(ExprMixin, CallMixin, SpecMixin, StmtMixin):
             e = st.list_elems(ty, sv.t)
             st.assume(z3.ForAll([j], z3.Implies(z3.And(0 <= j, j < st.list_len(ty, sv.t)),
                                                 z3.And(0 <= e[j], e[j] < st.alloc)), patterns=[e[j]]))
+            self.reachable_nested(e[j], ty.args[0], st, depth - 1, [j], [z3.And(0 <= j, j < st.list_len(ty, sv.t))])
+
+    def reachable_nested(self, term, ty, st, depth, vars_, guards):
+        """well-formedness below the first level of a nested parameter (lists of lists, records in lists)"""
+        if depth <= 0:
+            return
+        def q(f):
+            st.assume(z3.ForAll(vars_, z3.Implies(z3.And(*guards), f)))
+        if ty.kind == "obj":
+            decl = self.reg.classes.get(ty.args[0])
+            if decl is None:
+                return
+            for f, fty in decl["fields"].items():
+                if fty.is_ref:
+                    t = st.field(ty.args[0], f, fty, term)
+                    q(z3.And(0 <= t, t < st.alloc))
+                    self.reachable_nested(t, fty, st, depth - 1, vars_, guards)
+        elif ty.kind == "list" and ty.args[0].is_ref:
+            k = z3.Int(fresh_name("k"))
+            e = st.list_elems(ty, term)
+            n = st.list_len(ty, term)
+            vs, gs = vars_ + [k], guards + [z3.And(0 <= k, k < n)]
+            st.assume(z3.ForAll(vs, z3.Implies(z3.And(*gs), z3.And(0 <= e[k], e[k] < st.alloc))))
+            self.reachable_nested(e[k], ty.args[0], st, depth - 1, vs, gs)
 
     def exit_obligations(self, c, fn, o):
         entry = self.entry
